@@ -21,6 +21,14 @@ ALLOWED_BINDINGS = {
 }
 
 
+def _wildcard_alias(f, v: ast.AST) -> bool:
+    """`v` is a local name whose every definition in f is the wildcard entry of the group (`self._attribute_group.get(None)` / `[None]`)."""
+    if not isinstance(v, ast.Name):
+        return False
+    defs = [s_.value for s_ in ast.walk(f.node) if isinstance(s_, ast.Assign) and any(text(t) == v.id for t in s_.targets)]
+    return bool(defs) and all(text(d) in ('self._attribute_group.get(None)', 'self._attribute_group[None]') for d in defs)
+
+
 def _undeclared(ctx: Ctx, rule: str, meth: str, floor_bind: int) -> None:
     f = ctx.idx.cls(AG).methods.get(meth)
     if f is None:
@@ -35,10 +43,14 @@ def _undeclared(ctx: Ctx, rule: str, meth: str, floor_bind: int) -> None:
     binds = [n for n in g.nodes if n.kind == 'stmt' and isinstance(n.ast, ast.Assign)
              and any(text(t) == 'xsd_attribute' for t in n.ast.targets)]
     ctx.floor(rule, f'xsd_attribute binding sites in {meth}', len(binds), floor_bind)
+    callee0 = 'raw_decode' if meth == 'raw_decode' else 'raw_encode'
+    uses0 = [n for n, _ in call_nodes(g, lambda c: text(c.func) == f'xsd_attribute.{callee0}')]
+    pairs = [n for n in g.nodes if n.kind == 'stmt' and isinstance(n.ast, ast.Assign) and text(n.ast.targets[0]) == 'value' and text(n.ast.value) == '(name, value)']
     for b in binds:
         v = text(b.ast.value)
         gs = guards(ctx, f, b)
-        ok = v in ALLOWED_BINDINGS
+        alias = _wildcard_alias(f, b.ast.value)
+        ok = v in ALLOWED_BINDINGS or alias
         det = '' if ok else f'`{v}` is not one of the three admitted sources'
         if ok and v == 'self.maps.attributes[name]':
             ok = any('XSI_NAMESPACE' in t and lab == 'T' and '==' in t for t, lab in gs)
@@ -46,13 +58,19 @@ def _undeclared(ctx: Ctx, rule: str, meth: str, floor_bind: int) -> None:
         if ok and v == 'self._attribute_group[None]':
             ok = ('None in self._attribute_group', 'T') in gs or ('None not in self._attribute_group', 'F') in gs
             det = '' if ok else 'wildcard binding not guarded by the presence of a wildcard'
-        ctx.ob(rule, f'{meth}: attribute validator bound from {ALLOWED_BINDINGS.get(v, v)}', f.loc(b.ast), ok, det,
-               key=f'{meth}|bind|{v}|{sorted(gs)[:0]}')
-        if v == 'self._attribute_group[None]':
-            # the wildcard receives the (name, value) pair, rebound in the same block
-            blk = _block_of(f.node, b.ast)
-            ok2 = any(isinstance(s, ast.Assign) and text(s.targets[0]) == 'value' and text(s.value) == '(name, value)' for s in blk)
-            ctx.ob(rule, f'{meth}: wildcard decoding receives the (name, value) pair', f.loc(b.ast), ok2, '', key=f'{meth}|wild-pair|{len(blk)}')
+        if ok and alias:
+            ok = (f'{v} is not None', 'T') in gs or (f'{v} is None', 'F') in gs
+            det = '' if ok else f'wildcard binding not guarded by `{v} is not None`'
+        ctx.ob(rule, f'{meth}: attribute validator bound from {"the attribute wildcard" if alias else ALLOWED_BINDINGS.get(v, v)}', f.loc(b.ast), ok, det,
+               key=f'{meth}|bind|{"self._attribute_group[None]" if alias else v}|{sorted(gs)[:0]}')
+        if v == 'self._attribute_group[None]' or alias:
+            # the wildcard receives the (name, value) pair: every path from the binding to the call rebinds `value`
+            w = g.must_pass(b, uses0, pairs, kinds='nTF')
+            ok2 = bool(uses0) and w is None
+            ctx.ob(rule, f'{meth}: wildcard {callee0.split("_")[1][:-1]}ing receives the (name, value) pair', f.loc(b.ast), ok2,
+                   '' if ok2 else f'a path from this binding reaches xsd_attribute.{callee0}(value, …) without `value = (name, value)`: the wildcard unpacks its argument '
+                   '(`name, value = obj`) - a bare string raises ValueError "too many values to unpack" out of lax validation (or is split when it has two characters)',
+                   key=f'{meth}|wild-pair|{len(_block_of(f.node, b.ast))}')
     # outer KeyError handler of the declaration lookup
     decl = [b for b in binds if text(b.ast.value) == 'self._attribute_group[name]']
     if len(decl) != 1:
@@ -106,6 +124,39 @@ def _undeclared(ctx: Ctx, rule: str, meth: str, floor_bind: int) -> None:
     for n, c in call_nodes(g, is_reporter_call):
         ok = bool(c.args) and text(c.args[0]) == 'validation'
         ctx.ob(rule, f'{meth}: report uses the caller\'s validation mode', f.loc(c), ok, '', key=f'{meth}|report-mode|{text(c.args[2]) if len(c.args) > 2 else ""}|{f.loc(c) if not ok else ""}')
+
+
+def wildcard_pair_contract(ctx: Ctx, rule: str) -> None:
+    """Caller/callee contract: XsdAnyAttribute.raw_decode / raw_encode unpack their argument (`name, value = obj`), the attribute group hands
+    every other validator the bare value.  Each binding of the validator to the wildcard is followed, on every path to the call, by the rebinding
+    `value = (name, value)`; otherwise the unpacking raises ValueError out of lax validation."""
+    wc = ctx.idx.cls('xmlschema.validators.wildcards.XsdAnyAttribute')
+    n = 0
+    for meth in ('raw_decode', 'raw_encode'):
+        cal = wc.find_method(meth)
+        unp = cal is not None and any(isinstance(s_, ast.Assign) and isinstance(s_.targets[0], ast.Tuple) and len(s_.targets[0].elts) == 2 and text(s_.value) == 'obj'
+                                      for s_ in walk_no_nested(cal.node))
+        f = ctx.idx.cls(AG).methods.get(meth)
+        if f is None:
+            raise AnalysisError(f'missing anchor {AG}.{meth}')
+        g = cfg_of(ctx, f)
+        uses = [x for x, _ in call_nodes(g, lambda c: text(c.func) == f'xsd_attribute.{meth}')]
+        pairs = [x for x in g.nodes if x.kind == 'stmt' and isinstance(x.ast, ast.Assign) and text(x.ast.targets[0]) == 'value' and text(x.ast.value) == '(name, value)']
+        binds = [x for x in g.nodes if x.kind == 'stmt' and isinstance(x.ast, ast.Assign) and any(text(t) == 'xsd_attribute' for t in x.ast.targets)]
+        for b in binds:
+            v = text(b.ast.value)
+            wild = v == 'self._attribute_group[None]' or _wildcard_alias(f, b.ast.value)
+            w = g.must_pass(b, uses, pairs, kinds='nTF')
+            if wild:
+                n += 1
+                ok = not unp or (bool(uses) and w is None)
+                ctx.ob(rule, f'XsdAttributeGroup.{meth}: the wildcard is called with the (name, value) pair it unpacks', f.loc(b.ast), ok,
+                       '' if ok else f'a path from `{text(b.ast)[:50]}` reaches xsd_attribute.{meth}(value, …) with the bare value: XsdAnyAttribute.{meth} starts with '
+                       '`name, value = obj` - ValueError "too many values to unpack" (a plain ValueError, also in lax mode) for e.g. an undeclared xsi: attribute under a wildcard',
+                       key=f'{meth}|wild-pair|{v[:30]}')
+    ctx.floor(rule, 'wildcard bindings in XsdAttributeGroup.raw_decode / raw_encode', n, 4)
+    ctx.explain(f'{rule}: must-pass-through in XsdAttributeGroup.raw_decode / raw_encode - every path from a binding of `xsd_attribute` to the wildcard (directly or through a local '
+                'alias) to the call `xsd_attribute.raw_…(value, …)` passes `value = (name, value)`; the callee is checked to unpack its argument.')
 
 
 def _block_of(fnode: ast.AST, stmt: ast.stmt) -> list:
